@@ -6,7 +6,7 @@
 // History lines:  op <id> <rank> <epoch> <code> <args...>
 // Every rank runs its own ops of epoch 1, then barrier, dumps, queries; epoch 2; ...
 // Codes (k key, v value, c constant, i index, r rank, n count):
-//  map<long,long> (default 7):  MI k v | MIM k v | MV k c | MVE k c | MIV k v c | MRA k v | MRX k v | ME k
+//  map<long,long> (default 7):  MI k v | MIM k v | MV k c | MVE k c | MIV k v c | MRA k v | MRX k v | MRN k v (reducer 2*stored+offered) | ME k
 //  multimap<long,long> (dflt 7): XI k v | XV k c | XVG k | XVE k c | XE k
 //  set<long>: SI k | SE k | SIM k | SIC k | SXM k | SXC k          multiset<long>: TI k | TE k
 //  counting_set<long>: CI k n | CH r k n   (n inserts from main / from a handler on rank r)
@@ -138,6 +138,7 @@ int main(int argc, char **argv) {
         else if (c == "MIV") M.async_insert_if_missing_else_visit(a[0], a[1], [](const long &k, long &v, const long &nv, long id, long cc) { v = v * 5 + nv + cc; g_tally[id]++; }, o.id, a[2]);
         else if (c == "MRA") M.async_reduce(a[0], a[1], std::plus<long>());
         else if (c == "MRX") M.async_reduce(a[0], a[1], [](const long &x, const long &y) { return std::max(x, y); });
+        else if (c == "MRN") M.async_reduce(a[0], a[1], [](const long &x, const long &y) { return 2 * x + y; });
         else if (c == "ME") M.async_erase(a[0]);
         else if (c == "XI") X.async_insert(a[0], a[1]);
         else if (c == "XV") X.async_visit(a[0], [](const long &k, long &v, long id, long cc) { v = v * 3 + cc; g_tally[id]++; }, o.id, a[1]);
